@@ -151,7 +151,8 @@ DISCRETE_ACTION = {"CartPole", "MountainCar", "Acrobot"}
 # and termination (Hopper), contact forces (Ant), no termination (Reacher), the smallest model.
 MUJOCO_REPRESENTATIVES = ["Hopper", "Ant", "Reacher", "InvertedPendulum"]
 
-BIG = 1.0e6  # stand-in for the corner of an unbounded action dimension (ClipAction declares Box(-inf, inf))
+BIG = 1.0e30  # stand-in for the corner of an unbounded action dimension (ClipAction declares Box(-inf, inf)): finite and in the space,
+# but its square overflows float32 - an action wrapper that lets it through to the inner reward / dynamics shows as a non-finite signal
 SYM_BOX = {"l": 0, "h": 1, "z": 2, "a": 3, "s": 4}
 SYM_SAMPLE_DISC = 99
 BLOCK = {"classic": 4096, "mujoco": 256, "g1": 64}
@@ -880,6 +881,8 @@ def explore(ctx: Ctx):
         elif fam == "mujoco":
             add_tree(name, {}, [], 2, 4 if thorough else 3)
             add_tree(name, {}, all_in_one, 2, 3)
+            if not thorough and name in MUJOCO_REPRESENTATIVES[:2]:
+                add_tree(name, {}, S_CA, 1, 2)  # ClipAction alone: nothing above it clips a non-finite reward back into range
             if thorough:
                 for cfg in cfgs:
                     add_tree(name, cfg, [], 2, 3)
